@@ -191,16 +191,11 @@ def check_setting(part, row, table_by_number):
         part.tr()
         victim = SpaceGroup(n, choice=choice)
         lst = victim.symmetry_operations
-        lst.reverse()
-        first = lst.pop()
-        try:
-            first.translation += 0.25
-            first.rotation *= -1
-        except Exception:
-            pass
-        if len(lst):
+        # (each edit is attempted on its own: an implementation that hands out immutable data simply refuses it)
+        for edit in (lambda: lst.reverse(), lambda: lst.pop(), lambda: lst[0].translation.__iadd__(0.25), lambda: lst[0].rotation.__imul__(-1),
+                     lambda: lst[-1].translation.__setitem__(slice(None), 0.125)):
             try:
-                lst[0].translation[:] = 0.125
+                edit()
             except Exception:
                 pass
         again = SpaceGroup(n, choice=choice)
